@@ -251,7 +251,7 @@ func C09(c *Ctx) {
 					k, isC := ConstStr(ctxKeyArg(o.V.(ssa.CallInstruction)))
 					return isC && k == "session"
 				})
-				fromWL := hasField(os, "sessionWhitelist")
+				fromWL := hasField(os, "sessionWhitelist") || c.derivedWhitelistField(os)
 				if !fromState || !fromWL {
 					okH = false
 				}
@@ -341,6 +341,30 @@ func (c *Ctx) stateHiderGet(serve *ssa.Function) {
 	for _, call := range inner {
 		ok := HasFact(FactsAtInstr(call.(ssa.Instruction)), func(f Fact) bool {
 			rel := f.Rel()
+			// an exact comparison of the requested key with an element of the
+			// whitelist (a scan of the list), or slices.Contains over it
+			if rel.Op == token.EQL && rel.X != nil && rel.Y != nil {
+				elemOf := func(v ssa.Value) bool {
+					u, ok := v.(*ssa.UnOp)
+					if !ok {
+						return false
+					}
+					ia, ok := u.X.(*ssa.IndexAddr)
+					return ok && hasField(c.fieldOrigins(ia.X), "whitelist")
+				}
+				_, xp := rel.X.(*ssa.Parameter)
+				_, yp := rel.Y.(*ssa.Parameter)
+				if (xp && elemOf(rel.Y)) || (yp && elemOf(rel.X)) {
+					return true
+				}
+			}
+			if rel.B != nil && rel.Pol {
+				if call, _ := CallOf(rel.B); call != nil && strings.HasPrefix(Callee(call), "slices.Contains") {
+					if _, kp := Arg(call, 1).(*ssa.Parameter); kp && hasField(c.fieldOrigins(Arg(call, 0)), "whitelist") {
+						return true
+					}
+				}
+			}
 			if rel.B == nil || !rel.Pol {
 				return false
 			}
@@ -579,4 +603,57 @@ func (c *Ctx) loginStamps(refresh *ssa.Function, last string) {
 		}
 		r.Check(ok, "C09.login-stamp", name, "PutSession(uid)", pos, "the login's After event ("+strings.Join(evs, ",")+") is stamped by expire.Setup", "login starts no idle clock: none of the After events fired on this login path ("+strings.Join(evs, ",")+") has a stamping handler registered by expire.Setup")
 	}
+}
+
+// derivedWhitelistField: the hider's whitelist comes from a field of the
+// middleware that its constructor fills with a set built from the configured
+// whitelist (the set precomputed once instead of per expired request).
+func (c *Ctx) derivedWhitelistField(os []Origin) bool {
+	for _, o := range os {
+		if o.Kind != "field" || !strings.Contains(o.Name, "expire") {
+			continue
+		}
+		fname := o.Name[strings.LastIndex(o.Name, ".")+1:]
+		found, okAll := false, true
+		for _, fn := range c.P.Funcs {
+			if pkgOf(fn) != "ab/expire" {
+				continue
+			}
+			for _, b := range fn.Blocks {
+				for _, in := range b.Instrs {
+					st, ok := in.(*ssa.Store)
+					if !ok {
+						continue
+					}
+					fa, ok := st.Addr.(*ssa.FieldAddr)
+					if !ok || fieldName(fa) != fname {
+						continue
+					}
+					found = true
+					// the stored map: every key put into it derives from the configured list
+					nkeys := 0
+					for _, bb := range fn.Blocks {
+						for _, ii := range bb.Instrs {
+							mu, isMU := ii.(*ssa.MapUpdate)
+							if !isMU || mu.Map != st.Val {
+								continue
+							}
+							nkeys++
+							ko := c.fieldOrigins(mu.Key)
+							if !(hasField(ko, "SessionStateWhitelistKeys") || hasField(ko, "sessionWhitelist")) {
+								okAll = false
+							}
+						}
+					}
+					if nkeys == 0 {
+						okAll = false
+					}
+				}
+			}
+		}
+		if found && okAll {
+			return true
+		}
+	}
+	return false
 }
